@@ -1568,7 +1568,10 @@ class ValueString(Value):
 
     def asDecimal(self):
         try:
-            return ValueDecimal(float(self.value))
+            result = float(self.value)
+            if not math.isfinite(result):
+                raise ValueError(self.value)
+            return ValueDecimal(result)
         except ValueError:
             raise CklRuntimeError(
                 ValueString("ERROR"),
@@ -1613,7 +1616,7 @@ class ValueString(Value):
     def asPattern(self):
         try:
             return ValuePattern(self.value)
-        except (re.error, OverflowError):
+        except (re.error, OverflowError, ValueError, RecursionError):
             raise CklRuntimeError(
                 ValueString("ERROR"),
                 "Cannot convert " + str(self.value) + " to pattern",
